@@ -673,6 +673,52 @@ def check_exact(case):
     return _run(case, M, terms, vs, spin)
 
 
+def _gen_fresh(ctx):
+    for fn in FNS:
+        spin = fn in SPIN_FN
+        for T in ("dict", "PUSO" if spin else "PUBO"):
+            for terms in ({}, {(): 3}, {(): -2}, {('a',): 1}, {('a',): -1, ('b',): 2, (): 1}):
+                for allsol in (False, True):
+                    yield {"fn": fn, "type": T, "terms": terms, "all": allsol}
+
+
+@clause("C09.results_are_fresh", "C09", gen=_gen_fresh, nontrivial=lambda c: True)
+def check_fresh(case):
+    """what a call returns is the caller's: after a first call the returned assignment (or list of assignments) is
+    filled with foreign entries by the caller - a later call on an equal model, and a call on another model
+    without variables, must still return the correct result ({} resp. [{}] for a model without variables, the
+    minimisers otherwise). Oracle: exhaustive enumeration. All cases count as non-trivial."""
+    terms = case["terms"]
+    spin = case["fn"] in SPIN_FN
+    vs = variables_of(terms)
+    f = _fn_of(case)
+
+    def model(t):
+        return dict(t) if case["type"] == "dict" else cls_of(case["type"])(t)
+    obj, sol = f(model(terms), all_solutions=case["all"])
+    # the caller uses what it got
+    if case["all"]:
+        if isinstance(sol, list):
+            for s in sol:
+                if isinstance(s, dict):
+                    s["__foreign"] = 7
+            sol.append({"__foreign": 7})
+    elif isinstance(sol, dict):
+        sol["__foreign"] = 7
+    for t2 in (terms, {(): 5}, {}):
+        vs2 = variables_of(t2)
+        best, expected = _expected(t2, vs2, spin, lambda x: True)
+        if not t2:
+            best, expected = 0, [{}]
+        obj2, sol2 = f(model(t2), all_solutions=case["all"])
+        r = _check_all(obj2, sol2, vs2, spin, best, expected) if case["all"] else \
+            _check_one(obj2, sol2, t2, vs2, spin, lambda x: True, best)
+        if r is not None:
+            return Fail("after the caller edited an earlier result, a call on %r: %s" % (t2, r.msg if hasattr(r, "msg") else r),
+                        key="result-shared-between-calls")
+    return None
+
+
 def _gen_problem_free(ctx):
     rng = ctx.rng("c09.problem.free")
     # BILP: minimise c.x subject to S x = b; a column that is zero in S and in c is a free variable that does not
